@@ -133,6 +133,11 @@ fn macopts() -> Frame {
 fn nbtrans(n: u8) -> Frame {
     Frame::Down { fcnt: Fcnt::Rel(1), confirmed: false, ack: false, fopts: crate::cmds::link_adr(15, 15, 0x00FF, 6, n, false).bytes, port: None, payload: vec![], tamper: Tamper::None }
 }
+/// authentic and fresh, but longer than the data rate of the window admits (EU868: both windows at the default rate;
+/// US915: RX2): ends the receive procedure like a timeout
+fn oversized() -> Frame {
+    Frame::Down { fcnt: Fcnt::Rel(1), confirmed: false, ack: false, fopts: vec![], port: Some(1), payload: vec![0x55; 80], tamper: Tamper::None }
+}
 fn bad() -> Frame {
     Frame::Down { fcnt: Fcnt::Rel(1), confirmed: false, ack: false, fopts: vec![], port: Some(1), payload: vec![1, 2, 3], tamper: Tamper::BadMic }
 }
@@ -171,6 +176,8 @@ impl System for NbSys {
                 (None, Some(macopts())),
                 (Some(nbtrans(2)), None),
                 (None, Some(nbtrans(15))),
+                (Some(oversized()), None),
+                (None, Some(oversized())),
             ];
             for (rx1, rx2) in &outcomes {
                 v.push(Ev::Cycle { confirmed: conf, port: 1, len, rx1: rx1.clone(), rx2: rx2.clone() });
@@ -190,6 +197,11 @@ impl System for NbSys {
                     }
                 }
             }
+        }
+        // an OTAA join attempt that nobody answers, from a joined state (afterwards the old session is gone, or at least
+        // never continues below its counters)
+        if self.core.joined_session().is_some() {
+            v.push(Ev::JoinCycle { rx1: None, rx2: None });
         }
         v
     }
@@ -284,6 +296,8 @@ impl System for ASys {
             Script { rx2: Some(macopts()), ..Default::default() },
             Script { rx1: Some(nbtrans(2)), ..Default::default() },
             Script { rx2: Some(nbtrans(15)), ..Default::default() },
+            Script { rx1: Some(oversized()), ..Default::default() },
+            Script { rx2: Some(oversized()), ..Default::default() },
         ];
         if self.class_c {
             scripts.push(Script { rxc1: vec![good(false)], ..Default::default() });
@@ -306,6 +320,9 @@ impl System for ASys {
                     }
                 }
             }
+        }
+        if matches!(self.core.snap().state, VerifMacState::Joined(_)) {
+            v.push(AEv::Join(Script::default()));
         }
         if self.class_c {
             v.push(AEv::Listen { frames: vec![good(false)], fault_at: None });
@@ -493,7 +510,7 @@ pub fn run(tier: Tier, replay: Option<&str>) {
         ],
         "evaluations": ctx.evals(),
         "distinct_nontrivial": states,
-        "rule": "BFS over histories of whole uplink transactions (and Class C idle listening) on the real nb and async devices, also with an application that leaves received downlinks in the queue through the next uplink; every transaction is run with every receive outcome of the alphabet (nothing, RX1 hit, RX2 hit confirmed, invalid frame, MAC-only downlink on port 0 / in FOpts, accepted LinkADRReq asking for 2 / 15 transmissions per uplink, Class C downlink before RX1 / RX2) and with a radio fault at every radio call position of the transaction - a single failing call (nb: the first or the second radio call of the step), or an outage spanning 2 / 3 consecutive radio calls (nb: the retried step fails again) or 2 calls / the rest of the public call (async) -, at most `fault_bound` such deviations per history; boards with receive windows of 100 / 1000 / 2500 ms and window offsets 0 / 30 ms; sessions start with fcnt_up at 0, 0xFFFE, 0xFFFF, 2^32-3, 2^32-2, 2^32-1, and (fault-free, depth 3) one uplink before each ADR back-off threshold (63, 95, 127 uplinks without a downlink) at the lowest and at a higher data rate; every frame handed to the radio is decoded by the reference codec (counter recovered by MIC verification)",
+        "rule": "BFS over histories of whole uplink transactions (and Class C idle listening) on the real nb and async devices, also with an application that leaves received downlinks in the queue through the next uplink; every transaction is run with every receive outcome of the alphabet (nothing, RX1 hit, RX2 hit confirmed, invalid frame, MAC-only downlink on port 0 / in FOpts, accepted LinkADRReq asking for 2 / 15 transmissions per uplink, an authentic but over-long downlink in RX1 / RX2, Class C downlink before RX1 / RX2; an unanswered OTAA join attempt from the joined state is an event too) and with a radio fault at every radio call position of the transaction - a single failing call (nb: the first or the second radio call of the step), or an outage spanning 2 / 3 consecutive radio calls (nb: the retried step fails again) or 2 calls / the rest of the public call (async) -, at most `fault_bound` such deviations per history; boards with receive windows of 100 / 1000 / 2500 ms and window offsets 0 / 30 ms; sessions start with fcnt_up at 0, 0xFFFE, 0xFFFF, 2^32-3, 2^32-2, 2^32-1, and (fault-free, depth 3) one uplink before each ADR back-off threshold (63, 95, 127 uplinks without a downlink) at the lowest and at a higher data rate; every frame handed to the radio is decoded by the reference codec (counter recovered by MIC verification)",
         "fault_bound_completed": bound,
         "depth": depth,
         "configurations": runs.len(),
